@@ -70,33 +70,33 @@ structure Limits where
 def rd (t : Tgt) (off width : Int) : Access := ⟨t, off, width, .read⟩
 def wr (t : Tgt) (off width : Int) : Access := ⟨t, off, width, .write⟩
 
-/-- F_INDEX: `c[n]` as an rvalue -/
+/-- F_INDEX: `c[n]` as an rvalue.  The guards test the 64-bit operand; `i = (int)n` afterwards. -/
 def opIndex (k : Kind) (size : Int) (n : Int) : R :=
   let i := trunc32 n
   match k with
-  | .buf => if guard_index_buf i size then .error (.lpc msg_index_buf) else .ok ⟨[rd .owner i 1], .elem i⟩
-  | .str => if guard_index_str i size then .error (.lpc msg_index_str) else .ok ⟨[rd .owner i 1], .elem i⟩
+  | .buf => if guard_index_buf n size then .error (.lpc msg_index_buf) else .ok ⟨[rd .owner i 1], .elem i⟩
+  | .str => if guard_index_str n size then .error (.lpc msg_index_str) else .ok ⟨[rd .owner i 1], .elem i⟩
   | .arr =>
-    if guard_index_arr_neg i then .error (.lpc msg_index_arr_neg)
-    else if guard_index_arr i size then .error (.lpc msg_index_arr)
+    if guard_index_arr_neg n then .error (.lpc msg_index_arr_neg)
+    else if guard_index_arr n size then .error (.lpc msg_index_arr)
     else .ok ⟨[rd .owner i 1], .elem i⟩
 
-/-- F_RINDEX: `c[<n]` as an rvalue -/
+/-- F_RINDEX: `c[<n]` as an rvalue.  The guards test the 64-bit operand, then the index is computed. -/
 def opRindex (k : Kind) (size : Int) (n : Int) : R :=
   match k with
   | .buf =>
     -- i = sp->u.buf->size - (int)n   : unsigned int arithmetic, stored into an int
     let i := trunc32 (truncU32 (size - trunc32 n))
-    if guard_rindex_buf i size then .error (.lpc msg_rindex_buf) else .ok ⟨[rd .owner i 1], .elem i⟩
+    if guard_rindex_buf n size then .error (.lpc msg_rindex_buf) else .ok ⟨[rd .owner i 1], .elem i⟩
   | .str =>
     -- i = (int)(len - n)             : size_t arithmetic
     let i := trunc32 (truncU64 (size - n))
-    if guard_rindex_str i size then .error (.lpc msg_rindex_str) else .ok ⟨[rd .owner i 1], .elem i⟩
+    if guard_rindex_str n size then .error (.lpc msg_rindex_str) else .ok ⟨[rd .owner i 1], .elem i⟩
   | .arr =>
-    -- i = arr->size - (int)n         : int arithmetic
+    -- i = arr->size - (int)n         : int arithmetic, after the guard
     let i := size - trunc32 n
-    if !inS32 i then .error (.ub "rindex_arr")
-    else if guard_rindex_arr i size then .error (.lpc msg_rindex_arr)
+    if guard_rindex_arr n size then .error (.lpc msg_rindex_arr)
+    else if !inS32 i then .error (.ub "rindex_arr")
     else .ok ⟨[rd .owner i 1], .elem i⟩
 
 /-- the byte store of F_VOID_ASSIGN through a T_LVALUE_BYTE -/
@@ -143,6 +143,21 @@ def sliceArray (size : Int) (from0 to0 : Int) : Out :=
   if guard_slice_empty fromC toC then ⟨[], .slice 0 0⟩
   else ⟨[rd .owner fromC (toC - fromC + 1), wr (.fresh (toC - fromC + 1)) 0 (toC - fromC + 1)], .slice fromC (toC - fromC + 1)⟩
 
+/-- f_range, T_ARRAY after `from` / `to` are computed: clamps while still 64 bits wide, then
+    slice_array (v, (int)from, (int)to) -/
+def rangeArrCore (size from1 to1 : Int) : Out :=
+  let from2 := if guard_range_arr_from_neg from1 then 0 else from1
+  let to2 := if guard_range_arr_to_hi to1 size then size - 1 else to1
+  let to3 := if guard_range_arr_to_lo to2 then -1 else to2
+  let from3 := if guard_range_arr_from_hi from2 size then size else from2
+  sliceArray size (trunc32 from3) (trunc32 to3)
+
+/-- f_extract_range, T_ARRAY -/
+def erangeArrCore (size from1 : Int) : Out :=
+  let from2 := if guard_erange_arr_from_neg from1 then 0 else from1
+  let from3 := if guard_erange_arr_from_hi from2 size then size else from2
+  sliceArray size (trunc32 from3) (trunc32 (size - 1))
+
 /-- f_range (code): `c[n1..n2]`, bit 0x10 = first index counted from the end, bit 0x01 = second -/
 def opRange (lim : Limits) (k : Kind) (r1 r2 : Bool) (size : Int) (n1 n2 : Int) : R :=
   match k with
@@ -151,11 +166,11 @@ def opRange (lim : Limits) (k : Kind) (r1 r2 : Bool) (size : Int) (n1 n2 : Int) 
     let to1 := if r2 then len - n2 else n2
     if !inS64 to1 then .error (.ub "range_str_to")
     else
-    let to2 := if !r2 && guard_range_str_to_neg to1 then to1 + len else to1
+    let to2 := if guard_range_str_to_neg to1 then to1 + len else to1
     let from1 := if r1 then len - n1 else n1
     if !inS64 from1 then .error (.ub "range_str_from")
     else
-    let from2 := if !r1 && guard_range_str_from_neg from1 then from1 + len else from1
+    let from2 := if guard_range_str_from_neg from1 then from1 + len else from1
     let from3 := if guard_range_str_from_clamp from2 then 0 else from2
     if guard_range_str_empty to2 from3 len then .ok ⟨[], .slice 0 0⟩
     else if guard_range_str_tail to2 len then
@@ -186,7 +201,7 @@ def opRange (lim : Limits) (k : Kind) (r1 r2 : Bool) (size : Int) (n1 n2 : Int) 
     else
     let from1 := if r1 then size - n1 else n1
     if !inS64 from1 then .error (.ub "range_arr_from")
-    else .ok (sliceArray size (trunc32 from1) (trunc32 to1))
+    else .ok (rangeArrCore size from1 to1)
 
 /-- f_extract_range (code): `c[n1..]` -/
 def opErange (lim : Limits) (k : Kind) (r1 : Bool) (size : Int) (n1 : Int) : R :=
@@ -213,22 +228,26 @@ def opErange (lim : Limits) (k : Kind) (r1 : Bool) (size : Int) (n1 : Int) : R :
   | .arr =>
     let from1 := if r1 then size - n1 else n1
     if !inS64 from1 then .error (.ub "erange_arr_from")
-    else .ok (sliceArray size (trunc32 from1) (trunc32 (size - 1)))
+    else .ok (erangeArrCore size from1)
 
-/-- push_lvalue_range (code) followed by copy_lvalue_range / assign_lvalue_range of a same-kind container of
-    `fsize` elements.  The second index is processed first, as in C. -/
-def opLrange (lim : Limits) (k : Kind) (r1 r2 : Bool) (size : Int) (n1 n2 : Int) (fsize : Int) : R :=
-  let sz := match k with | .arr => size | .str => trunc32 size | .buf => trunc32 size
-  let i2 := if r2 then sz - trunc32 n2 else trunc32 n2
-  if !inS32 i2 then .error (.ub "lrange_ind2")
+/-- push_lvalue_range once the narrowed operands `i1 = (code & 0x10) ? size - (int)n1 : (int)n1` and `i2` (same for
+    the 2nd operand) are named: pre-checks on the 64-bit operands, exact tests on the ints.  The second index is
+    processed first, as in C; the result is `(ind1, ind2)` with ind2 already incremented. -/
+def lrangeBoundsCore (sz n1 n2 i1 i2 : Int) : Except Err (Int × Int) :=
+  if guard_lrange_ind2_pre n2 sz then .error (.lpc msg_lrange_ind2_pre)
+  else if !inS32 i2 then .error (.ub "lrange_ind2")
   else if !inS32 (i2 + 1) then .error (.ub "lrange_ind2_inc")
   else if guard_lrange_ind2 i2 sz then .error (.lpc msg_lrange_ind2)
-  else
-  let ind2 := i2 + 1
-  let ind1 := if r1 then sz - trunc32 n1 else trunc32 n1
-  if !inS32 ind1 then .error (.ub "lrange_ind1")
-  else if guard_lrange_ind1 ind1 sz then .error (.lpc msg_lrange_ind1)
-  else
+  else if guard_lrange_ind1_pre n1 sz then .error (.lpc msg_lrange_ind1_pre)
+  else if !inS32 i1 then .error (.ub "lrange_ind1")
+  else if guard_lrange_ind1 i1 sz then .error (.lpc msg_lrange_ind1)
+  else .ok (i1, i2 + 1)
+
+def lrangeBounds (r1 r2 : Bool) (sz : Int) (n1 n2 : Int) : Except Err (Int × Int) :=
+  lrangeBoundsCore sz n1 n2 (if r1 then sz - trunc32 n1 else trunc32 n1) (if r2 then sz - trunc32 n2 else trunc32 n2)
+
+/-- copy_lvalue_range / assign_lvalue_range of a same-kind container of `fsize` elements into [ind1, ind2) -/
+def lrangeAssign (lim : Limits) (k : Kind) (sz ind1 ind2 fsize : Int) : R :=
   if fsize = ind2 - ind1 then
     -- same size: overwrite in place
     .ok ⟨[rd .rhs 0 fsize, wr .owner ind1 fsize], .spliced ind1 ind2 fsize false⟩
@@ -249,11 +268,24 @@ def opLrange (lim : Limits) (k : Kind) (r1 r2 : Bool) (size : Int) (n1 n2 : Int)
     | .buf =>
       if guard_alloc_buffer nsz lim.maxBuffer then .error (.lpc msg_alloc_buffer)
       else
-      -- memcpy (new_item, from->u.buf, fsize): copies from the buffer_t HEADER, not from ->item
+      -- memcpy (new_item, from->u.buf->item, fsize)
       .ok ⟨(if ind1 ≥ 1 then [rd .owner 0 ind1, wr (.fresh nsz) 0 ind1] else []) ++
-           [rd .rhsHdr 0 fsize, wr (.fresh nsz) ind1 fsize] ++
+           [rd .rhs 0 fsize, wr (.fresh nsz) ind1 fsize] ++
            (if tail ≥ 1 then [rd .owner ind2 tail, wr (.fresh nsz) (ind1 + fsize) tail] else []),
            .spliced ind1 ind2 fsize true⟩
+
+/-- `int size` of push_lvalue_range: `arr->size`, `(int)SVALUE_STRLEN`, `buf->size` narrowed to int -/
+def lrangeSz (k : Kind) (size : Int) : Int :=
+  match k with
+  | .arr => size
+  | .str => trunc32 size
+  | .buf => trunc32 size
+
+/-- push_lvalue_range (code) followed by copy_lvalue_range / assign_lvalue_range -/
+def opLrange (lim : Limits) (k : Kind) (r1 r2 : Bool) (size : Int) (n1 n2 : Int) (fsize : Int) : R :=
+  match lrangeBounds r1 r2 (lrangeSz k size) n1 n2 with
+  | .error e => .error e
+  | .ok (ind1, ind2) => lrangeAssign lim k (lrangeSz k size) ind1 ind2 fsize
 
 /-! ### allocation geometry -/
 
